@@ -743,7 +743,9 @@ func TestVerifC20(t *testing.T) {
 				vals := map[string]map[string][]byte{"f": {"q": []byte("v")}}
 				p1, _ := hrpc.NewPut(context.Background(), []byte("t"), []byte("a-batch"), vals)
 				p2, _ := hrpc.NewPut(context.Background(), []byte("t"), []byte("q-batch"), vals)
-				if res, ok := c.SendBatch(context.Background(), []hrpc.Call{p1, p2}); !ok {
+				// (the held server's call comes first: SendBatch waits for its servers in the iteration order of a map filled in batch
+				// order, which for two entries is the insertion order in 7 of 8 runs)
+				if res, ok := c.SendBatch(context.Background(), []hrpc.Call{p2, p1}); !ok {
 					rep.bad("request-failed", "%s: the batch failed: %v", name, res)
 				}
 			}()
